@@ -107,6 +107,29 @@ CHECKS['C05'] = {
     'technique': 'flag specialisation of MIR + affine access maps -> contraction signature + symbolic matrix-expression algebra',
 }
 
+CHECKS['C11'] = {
+    'category': 'other',
+    'text': 'Structural clauses decided on MIR: every Cholesky pivot square root is dominated by `pivot > 0` on that value (non-PD input is '
+            'rejected, no NaN factor); slice-level and Matrix-level LU, LU-solve, substitutions and structural predicates have identical abstract '
+            'skeletons (2-D accesses, loop ranges, swaps, data-dependent branches); all accesses obey the row-major stride rule; Cholesky writes '
+            'only j <= i and the substitutions read the strict lower/upper part; reads of the set_len buffers hit only already-written indices; '
+            'det = prod(diag(LU)) * parity. L.L^T = A, P.A = L.U and the parity routine itself are not decided.',
+    'design_ref': 'DESIGN.md 4.11, 3 (E-GRD guard-use, E-SIB, E-IDX)',
+    'note': 'E-SIB is only V-sound relative to the pinned pair agreeing semantically (read and confirmed); precondition asserts are excluded from the comparison.',
+    'technique': 'dominating-guard analysis + sibling skeleton comparison over affine access maps + loop-bound reasoning',
+}
+CHECKS['C01'] = {
+    'category': 'other',
+    'text': 'Must-pass-through/typestate clauses for all solver entry points: the Cholesky route is entered only under the predicate on the same '
+            'matrix and every use of a Cholesky factor is guarded by a success test of the pivot-checking factorisation whose failure edge '
+            'reaches pivoted LU (so the answer cannot depend on the routing predicate); right-hand-side column i is solved into solution column '
+            'i through the layout conversions; Matrix solvers route through Matrix::lu; LU / LU-solve / substitution siblings agree; inverses '
+            'are solves against an identity. Residual and conditioning bounds are numerical and are not decided.',
+    'design_ref': 'DESIGN.md 4.1, 3 (E-GRD must-check, panic-dependence, E-IDX layout typestate, E-SIB)',
+    'note': 'Necessary conditions only; relies on C11 pivot-guard for the factoriser and C15 for the layout conversions and constructors.',
+    'technique': 'must-pass-through on the CFG with guard terms + layout typestate over resolved calls + sibling skeletons',
+}
+
 NOT_APPLICABLE = {
     'C09': 'accuracy of the Lanczos/asymptotic/Abramowitz-Stegun approximations over a continuum of arguments is a numerical '
            'quantity; no structural clause is a necessary condition without freezing coefficient tables (a brittle proxy); see DESIGN.md 4.9',
